@@ -85,7 +85,7 @@ def sortStr (l : List String) : List String := l.foldr insertSortedStr []
 def posIn (i : Inst) (n : Nat) : Option Nat := i.posOf n
 
 def needsInst (op : String) : Bool :=
-  ["restart", "reset", "build", "process", "fc", "hb", "roots", "state"].contains op
+  ["restart", "reset", "build", "rebuild", "process", "fc", "hb", "roots", "state"].contains op
 
 def knownParents (st : St) (e : Ev) : Bool := e.parents.all (fun p => (st.events.lookup p).isSome)
 
@@ -120,6 +120,13 @@ def step (st : St) (ws : List String) : St × String :=
     let e := mkEv (nat! n) (nat! ((kv rest "e").getD "0")) rest (nat! ((kv rest "f").getD "0"))
     if !knownParents st e then (st, "err unknown-parent") else
     ({ st with events := (e.n, e) :: st.events }, "ok")
+  | "rebuild" :: k :: n :: rest =>
+    let i := getInst st (nat! k)
+    let e := mkEv (nat! n) i.epoch rest 0
+    if !knownParents st e then (st, "err unknown-parent") else
+    match build i e with
+    | none => (st, "err noparent")
+    | some f => (st, s!"frame={f}")
   | "build" :: k :: n :: rest =>
     let i := getInst st (nat! k)
     let e := mkEv (nat! n) i.epoch rest 0
